@@ -147,7 +147,12 @@ pub fn run(ctx: &Ctx) -> Report {
             continue;
         }
         if model[i] != real[i] {
-            rep.disagree(&keys[i], &reqs[i].chars().take(3000).collect::<String>(), &real[i].chars().take(1500).collect::<String>(), &model[i].chars().take(1500).collect::<String>());
+            // the Lean builtin model is the function the C04 laws are proved about (`divide_mod_law`,
+            // `slice_spec`, `index_spec`, …): where it answers a value or a failure, a different answer of
+            // the real builtin on this argument tuple is a failing input of the property (`spec:`); only
+            // a `panic` answer is about the Rust representation (impl-model side)
+            let key = if model[i].starts_with("panic") || keys[i].starts_with("costmodel") { keys[i].clone() } else { format!("spec:{}", keys[i]) };
+            rep.disagree(&key, &reqs[i].chars().take(3000).collect::<String>(), &real[i].chars().take(1500).collect::<String>(), &model[i].chars().take(1500).collect::<String>());
         }
     }
     rep
